@@ -1176,7 +1176,7 @@ def run(ck: Check):
     return ck.finish(obligations=obligations, discharged=discharged,
                      checker_cmd="make -C coq Properties/C05.vo && coqc -Q coq XV coq/Properties/C05.v (Print Assumptions)",
                      trusted_base=TRUSTED_COMMON + [
-                         "axioms: " + (", ".join(axioms) or "none (all 50 statements closed under the global context)"),
+                         "axioms: " + (", ".join(axioms) or "none (every statement closed under the global context)"),
                          "float: the five hypotheses of Proofs/ConvFloat.CPythonFloat about CPython's repr()/float() (shape of repr, "
                          "float(repr x) == x, unique +-inf, NaN text gives NaN) and that float() rounds the decimal reading correctly — "
                          "sampled every run (coverage.cpython_float_hypotheses_sampled), not proved",
